@@ -19,7 +19,7 @@ CLAIMS = {
     'C03': dict(tech='eval sweep (PolicyEngine.CheckIfAllowed on an engine built as list builds it + the built k8snetpolicy eval binary) recorded as Eval events and validated by TLC against Ref and against the list result of the same run',
                 text='Every recorded eval reply (all ordered endpoint pairs incl. same pod / other pod of the same workload / address representatives; 3 protocols; both ends and the middle of every port chunk) '
                      'must equal the reference and the list result of the same run and must not be an error where list succeeded.', ref='6/C03'),
-    'C04': dict(tech='point-wise diff reference (DiffRef.tla) evaluated by TLC on Diff events recorded for every edge of TLC-generated edit behaviours (diff(prev,cur), diff(cur,prev), diff(cur,cur)) run through the real ConnDiffFromDirPaths',
+    'C04': dict(tech='point-wise diff reference (DiffRef.tla) evaluated by TLC on Diff events recorded for every edge of TLC-generated edit behaviours (diff(prev,cur), diff(cur,prev), diff(cur,cur)) run through the real ConnDiffFromDirPaths; design layer DiffMerge.tla (refine / group by peer;conn1;conn2 / merge touching ranges / classify as diff.go does, TLC-exhaustive over every pair of partitions of 4-5 addresses, each ingredient refuted when dropped) bound to the code by DiffMergeTrace.tla: the real diff run on every input of that specification, exact ranges compared',
                 text='For every pair of consecutive worlds of a behaviour (edits include add/remove/re-express workload, policy edits, ipBlock changes, admin policies) and every point (workload-key pair or workload/address class) '
                      'the real diff must have no covering entry when c1=c2=none and otherwise exactly one, of the right type, carrying exactly the reference c1 and c2 and the right new/lost flags; also for the swapped pair and for (A,A).', ref='6/C04'),
     'C05': dict(tech='well-formedness predicate (Obs.tla WellFormedMismatches) evaluated by TLC on the raw, un-abstracted ranges of every recorded list result',
@@ -39,7 +39,7 @@ CLAIMS = {
     'C10': dict(tech='TLA+ reference of Ingress/Route -> Service -> workload -> TCP container ports, intersected with the policy reference for a hypothetical unlabeled pod in an unknown namespace (IngressRef.tla); TLC behaviours with AddService/AddIngress/AddRoute edits replayed on the real list command; trace validation',
                 text='The {ingress-controller} => W lines and blocked-backend warnings of every replayed state (Services with named/numbered ports and targetPorts, Ingress default/rule backends by number or name, Routes with to/alternateBackends/targetPort, '
                      'workloads with TCP and UDP container ports, NetworkPolicies and admin policies) must equal IngressRef!IngressLine; a known finding (Ingress number matching a targetPort) is reported as such.', ref='6/C10'),
-    'C11': dict(tech='TLA+ register machine over connection-set denotations (ConnSetModel.tla); TLC random walks + exhaustive short operation sequences (ConnSet.tla) replayed on real common.ConnectionSet objects through the verif shim; every step validated by TLC (ConnSetTrace.tla)',
+    'C11': dict(tech='TLA+ register machine over connection-set denotations (ConnSetModel.tla); TLC random walks + exhaustive short operation sequences (ConnSet.tla) replayed on real common.ConnectionSet objects through the verif shim; every step validated by TLC (ConnSetTrace.tla); design layer ConnSetImpl.tla (AllowAll / AllowedProtocols / PortSet{Ports, NamedPorts, ExcludedNamedPorts} updated as connectionset.go and portset.go do) checked by TLC over every reachable representation to refine ConnSetModel, each ingredient refuted when dropped, and compared step by step with the representation the real objects hold (design drift is reported, not judged)',
                 text='Every step of every explored operation sequence (Make/AddConnection/Union/Intersection/Subtract/Copy on 2-3 registers) must be the set-algebra step on denotations: updated register exact, other registers unchanged, no shared pointers, '
                      'IsEmpty/IsAllConnections/Contains/String/Equal/ContainedIn consistent with denotations, ranges canonical. All sequences of 3 (quick) / 4 (thorough) operations over a 26-operation catalogue are enumerated; longer random walks and seeded sequences over 9 port chunks are sampled.', ref='6/C11',
                 note='Trusted: TLC, Json module, ConnSetModel.tla (named ports as atoms; a name is covered by a set holding it or by a full range; name part of Intersection, and completeness of Equal/ContainedIn/all-recognition in presence of excluded-named-port bookkeeping, left unspecified). Hook: pkg/netpol/verifshim (type aliases only).'),
